@@ -1,0 +1,21 @@
+//go:build verif
+
+package decor
+
+import "sync/atomic"
+
+var verifHook atomic.Value // of func(point string, n int)
+
+// SetVerifHook installs fn to be called at the event points of this package.
+func SetVerifHook(fn func(point string, n int)) {
+	if fn == nil {
+		fn = func(string, int) {}
+	}
+	verifHook.Store(fn)
+}
+
+func verifPoint(point string, n int) {
+	if fn, ok := verifHook.Load().(func(string, int)); ok {
+		fn(point, n)
+	}
+}
